@@ -341,3 +341,487 @@ Proof.
 Qed.
 
 End SelectorTotal.
+
+(* ------------------------------------------------------------------ *)
+(* Totality of the four key handlers and of every public operation *)
+From LC Require Import Proofs.LearnProofs.
+
+Section Total.
+Context {D SY : Type} (dops : dict_ops D) (sops : syl_ops SY) (conv : conv_fn).
+Variable dict_ok : D -> Prop.
+Hypothesis ok_lookup : forall d f, dict_ok d -> do_lookup dops d f [] = [].
+Hypothesis ok_add : forall d k t f, dict_ok d -> length t <= length k -> (f <= 100)%N -> dict_ok (fst (do_add dops d k t f)).
+Hypothesis ok_update : forall d k t f u tm, dict_ok d -> length t = length k -> k <> [] -> (u <= MAX_USER_FREQ)%N -> dict_ok (do_update dops d k t f u tm).
+Hypothesis ok_remove : forall d k t, dict_ok d -> dict_ok (do_remove dops d k t).
+Hypothesis alt_stable : forall x c, so_alt sops (so_clear sops x) c = so_alt sops x c.
+Variable ss0 : symbol_sel.
+Hypothesis ss0_good : ss_good ss0.
+Hypothesis ss0_fresh : ss_cursor ss0 = None.
+(* what totality needs on top of the invariant's hypotheses: a well-formed dictionary has no empty phrase
+   and frequencies that fit (the engine adds them up in 32 bits); the conversion tiles the buffer (C03);
+   key events are the ones the C API builds: a printable ASCII character or U+FFFD, Space carries ' ' *)
+Hypothesis ok_text : forall d f k p, dict_ok d -> In p (do_lookup dops d f k) -> fst p <> [].
+Hypothesis ok_freq : forall d f k p, dict_ok d -> In p (do_lookup dops d f k) -> (snd p < 4000000000)%N.
+Hypothesis conv_tiles : forall c n, wf_comp c -> contiguous 0 (clen c) (conv c n) = true.
+Definition event_ok (ev : keyevent) : Prop :=
+  (kcode ev = kc_Space -> full_width_symbol_input (kunicode ev) <> None) /\
+  (is_printable ev = true -> full_width_symbol_input (kunicode ev) <> None).
+
+Notation shared' := (shared D SY).
+Notation editor' := (editor D SY).
+Notation SInv := (EditorInv.SInv dict_ok ss0).
+Notation sel_inv := (EditorInv.sel_inv ss0).
+
+Ltac inv_ok H := inversion H; subst; clear H.
+Ltac bind_ok H x Hx := apply obind_ok in H; destruct H as (x & Hx & H).
+
+Lemma fine_with_com (s : shared') r : fine r -> fine (with_com s r).
+Proof. unfold with_com. intros H. apply fine_bind; [exact H | intros; exact I]. Qed.
+
+Lemma fine_commit_or_insert (s : shared') ch : SInv s -> fine (commit_or_insert s ch).
+Proof.
+  intros [W _ _ _]. unfold commit_or_insert. destruct (ce_is_empty (com s)); [exact I|].
+  apply fine_bind; [apply fine_with_com, fine_ce_insert, W | intros; exact I].
+Qed.
+
+Lemma max_freq_of_spec l : forall acc, (acc <= max_freq_of l acc)%N /\ (forall q, In q l -> (snd q <= max_freq_of l acc)%N) /\
+  ((forall q, In q l -> (snd q < 4000000000)%N) -> (acc < 4000000000)%N -> (max_freq_of l acc < 4000000000)%N).
+Proof.
+  induction l as [|x l IH]; intros acc; cbn [max_freq_of]; [repeat split; try lia; intros q []|].
+  destruct (IH (N.max acc (snd x))) as (I1 & I2 & I3). repeat split; [lia | |].
+  - intros q [<-|Hq]; [lia | now apply I2].
+  - intros Hq Ha. apply I3; [intros q Hin; apply Hq; now right|]. specialize (Hq x (or_introl eq_refl)). lia.
+Qed.
+
+Lemma fine_learn_phrase (s : shared') k t : SInv s -> fine (learn_phrase dops s k t).
+Proof.
+  intros [W Dk _ _]. unfold learn_phrase. destruct (negb _); [exact I|].
+  destruct (do_lookup dops (dict s) false k) as [|p ps] eqn:El.
+  - destruct (do_add dops (dict s) k t 1%N). exact I.
+  - apply fine_bind; [|intros; exact I].
+    set (pf := match find (fun q => text_eqb (fst q) t) (p :: ps) with Some q => snd q | None => 0%N end).
+    destruct (max_freq_of_spec (p :: ps) 0%N) as (_ & M2 & M3).
+    assert (Hb : forall q, In q (p :: ps) -> (snd q < 4000000000)%N) by (intros q Hq; eapply ok_freq; [exact Dk | rewrite El; exact Hq]).
+    assert (Hpf : (pf <= max_freq_of (p :: ps) 0)%N).
+    { subst pf. destruct (find (fun q => text_eqb (fst q) t) (p :: ps)) as [q|] eqn:Ef; [apply find_some in Ef as [Hin _]; now apply M2 | lia]. }
+    destruct (estimate_never_panics pf (max_freq_of (p :: ps) 0) Hpf) as (u & ->); [specialize (M3 Hb ltac:(lia)); lia | exact I].
+Qed.
+
+Lemma fine_auto_learn_go syms : forall ivs (s : shared') pending psyl, SInv s ->
+  Forall (fun iv => ib iv <= ie iv <= length syms) ivs -> fine (auto_learn_go dops s syms ivs pending psyl).
+Proof.
+  induction ivs as [|iv rest IH]; intros s pending psyl Hs Hok; cbn [auto_learn_go].
+  - destruct pending; [exact I|]. apply fine_bind; [now apply fine_learn_phrase | intros; exact I].
+  - inversion Hok as [|x l (H1 & H2) Hrest]; subst.
+    destruct (Nat.ltb (ie iv) (ib iv)) eqn:E1; [apply Nat.ltb_lt in E1; lia|].
+    destruct (Nat.ltb (length syms) (ie iv)) eqn:E2; [apply Nat.ltb_lt in E2; lia|].
+    destruct (iphrase iv && Nat.eqb (iv_len iv) 1 && negb (is_break_word (itext iv))); [now apply IH|].
+    apply fine_bind.
+    + destruct pending; [exact I|]. apply fine_bind; [now apply fine_learn_phrase | intros; exact I].
+    + intros s1 H1'. assert (I1 : SInv s1).
+      { destruct pending; [now inv_ok H1'|]. bind_ok H1' r Hr. inv_ok H1'. destruct r as [sx b]. cbn [fst].
+        eapply (learn_phrase_inv dops) in Hr as (Hx & _); try exact Hs; try eassumption. }
+      apply fine_bind.
+      * destruct (iphrase iv); [|exact I]. apply fine_bind; [now apply fine_learn_phrase | intros; exact I].
+      * intros s2 H2'. assert (I2 : SInv s2).
+        { destruct (iphrase iv); [|now inv_ok H2']. bind_ok H2' r Hr. inv_ok H2'. destruct r as [sx b]. cbn [fst].
+          eapply (learn_phrase_inv dops) in Hr as (Hx & _); try exact I1; try eassumption. }
+        now apply IH.
+Qed.
+
+(* intervals of a tiling lie inside the buffer *)
+Lemma contiguous_bounds : forall ivs from len, contiguous from len ivs = true ->
+  from <= len /\ Forall (fun iv => from <= ib iv /\ ib iv < ie iv /\ ie iv <= len) ivs.
+Proof.
+  induction ivs as [|iv rest IH]; intros from len H; cbn [contiguous] in H.
+  - apply Nat.eqb_eq in H. subst. split; [lia | constructor].
+  - apply andb_true_iff in H as (H & Hr). apply andb_true_iff in H as (H1 & H2).
+    apply Nat.eqb_eq in H1. apply Nat.ltb_lt in H2. destruct (IH _ _ Hr) as (Hle & Hf). split; [lia|].
+    constructor; [lia|]. eapply Forall_impl; [|exact Hf]. cbv beta. intros a (A & B & C). lia.
+Qed.
+
+Lemma fine_commit (s : shared') : SInv s -> fine (commit dops conv s).
+Proof.
+  intros Hs. pose proof Hs as [[Wc _] _ _ _]. unfold commit. apply fine_bind; [|intros; exact I].
+  destruct (o_no_learn (opts s)); [exact I|]. unfold auto_learn. apply fine_auto_learn_go; [exact Hs|].
+  unfold conversion. destruct (contiguous_bounds _ _ _ (conv_tiles (inner (com s)) (nth s) Wc)) as (_ & Hf).
+  eapply Forall_impl; [|exact Hf]. cbv beta. unfold clen. intros a (A & B & C). lia.
+Qed.
+
+Lemma fine_auto_commit_take len thr : forall ivs buf remove, contiguous remove len ivs = true ->
+  exists b r, auto_commit_take len thr ivs buf remove = Ok (b, r) /\ r <= len.
+Proof.
+  induction ivs as [|iv rest IH]; intros buf remove H; cbn [auto_commit_take].
+  - cbn [contiguous] in H. apply Nat.eqb_eq in H. subst. eauto.
+  - pose proof H as H0. cbn [contiguous] in H. apply andb_true_iff in H as (H & Hr). apply andb_true_iff in H as (H1 & H2).
+    apply Nat.eqb_eq in H1. apply Nat.ltb_lt in H2. destruct (contiguous_bounds _ _ _ Hr) as (Hle & _).
+    unfold iv_len. replace (remove + (ie iv - ib iv)) with (ie iv) by lia.
+    destruct (Nat.ltb len (ie iv)) eqn:E; [apply Nat.ltb_lt in E; lia|].
+    destruct (Nat.leb (len - ie iv) thr); [eauto|]. now apply IH.
+Qed.
+
+Lemma fine_try_auto_commit (s : shared') : SInv s -> fine (try_auto_commit conv s).
+Proof.
+  intros [[Wc Wcur] _ _ _]. unfold try_auto_commit. destruct (Nat.leb _ _); [exact I|].
+  destruct (fine_auto_commit_take (ce_len (com s)) (o_threshold (opts s)) (conversion conv s) [] 0 (conv_tiles _ _ Wc)) as (b & r & Hr & Hle).
+  rewrite Hr. cbn [obind]. apply fine_bind; [now apply fine_ce_remove_front | intros; exact I].
+Qed.
+
+Lemma fine_learn_in_range (s : shared') a b : a <= b -> fine (learn_in_range dops conv s a b).
+Proof.
+  intros Hab. unfold learn_in_range. destruct (Nat.ltb (ce_len (com s)) b); [exact I|].
+  destruct (Nat.ltb b a) eqn:E; [apply Nat.ltb_lt in E; lia|].
+  destruct (existsb is_char _); [exact I|]. destruct (existsb _ _); [exact I|].
+  destruct (do_add dops (dict s) _ _ 100%N) as [d' ok]. destruct ok; exact I.
+Qed.
+
+(* ---- candidate lists ---- *)
+Lemma fine_candidates (s : shared') sel : sel_inv s sel -> fine (candidates dops sops s sel).
+Proof.
+  intros Hsel. destruct sel as [p|y|sym]; cbn [candidates].
+  - destruct Hsel as ([Hlt Hle [Hsyl _ _]] & _).
+    destruct (Nat.ltb (ps_end p) (ps_begin p)) eqn:E1; [apply Nat.ltb_lt in E1; lia|].
+    destruct (Nat.ltb (clen (ps_com p)) (ps_end p)) eqn:E2; [apply Nat.ltb_lt in E2; lia|].
+    destruct (Nat.eqb (ps_end p - ps_begin p) 1) eqn:E3; [|exact I]. apply Nat.eqb_eq in E3.
+    replace (ps_end p) with (S (ps_begin p)) by lia.
+    destruct (slice_single (ps_com p) (ps_begin p) ltac:(lia) (Hsyl (ps_begin p) ltac:(lia))) as (code & ->). exact I.
+  - exact I.
+  - cbn [sel_inv] in Hsel. destruct sym; [discriminate | exact I].
+Qed.
+
+Lemma fine_total_page (s : shared') sel : SInv s -> sel_inv s sel -> fine (total_page dops sops s sel).
+Proof.
+  intros [_ _ _ Pp] Hsel. unfold total_page. apply fine_bind; [now apply fine_candidates|]. intros c _. unfold div_ceil.
+  destruct (Nat.eqb (o_per_page (opts s)) 0) eqn:E; [apply Nat.eqb_eq in E; lia | exact I].
+Qed.
+
+Lemma inner_clamp_push (e : comp_editor) : inner (ce_clamp_cursor (ce_push_cursor e)) = inner e.
+Proof. unfold ce_clamp_cursor, ce_push_cursor. cbn [cursor inner cursor_stack ce_len]. destruct (Nat.eqb _ _); reflexivity. Qed.
+
+Lemma fine_new_phrase_selecting (s : shared') code : ce_symbol_for_select (com s) = Some (SymSyl code) ->
+  fine (new_phrase_selecting dops s).
+Proof.
+  intros Hsym. unfold new_phrase_selecting. destruct (symbol_for_select_at_clamped_cursor _ _ Hsym) as (Hlt & Hat).
+  apply fine_bind; [|intros; exact I].
+  destruct (ps_init_total dops (dict s) (ps_new (negb (o_rearward (opts s))) (o_fuzzy (opts s)) (inner (ce_clamp_cursor (ce_push_cursor (com s)))))
+              (cursor (ce_clamp_cursor (ce_push_cursor (com s))))) as (p' & ->); [| |exact I];
+    cbn [ps_new ps_com]; rewrite inner_clamp_push; [exact Hlt | exists code; exact Hat].
+Qed.
+
+Lemma fine_new_phrase_selecting_simple (s : shared') : wf_ce (com s) -> 0 < cursor (com s) -> fine (new_phrase_selecting_simple s).
+Proof.
+  intros [_ Wc] Hc. unfold new_phrase_selecting_simple, ps_init_single_word. apply fine_bind; [|intros; exact I].
+  cbn [ps_new ps_com ce_push_cursor cursor inner]. unfold ce_len in Wc.
+  destruct (Nat.eqb (Nat.min (cursor (com s)) (clen (inner (com s)))) 0) eqn:E; [apply Nat.eqb_eq in E; lia | exact I].
+Qed.
+
+Lemma fine_new_special_selecting (s : shared') ch : fine (new_special_selecting s (SymChar ch)).
+Proof. unfold new_special_selecting. cbn [special_menu obind]. destruct (match special_find_category ch with Some _ => _ | None => _ end); exact I. Qed.
+
+Lemma fine_start_selecting_common (s : shared') f : fine (start_selecting_common dops s f).
+Proof.
+  unfold start_selecting_common. destruct (ce_symbol_for_select (com s)) as [[code|ch]|] eqn:E; cbn [is_syllable]; [| |exact I].
+  - apply fine_bind; [eapply fine_new_phrase_selecting; exact E | intros; exact I].
+  - apply fine_bind; [apply fine_new_special_selecting | intros; exact I].
+Qed.
+
+(* ---- Entering ---- *)
+Lemma fine_entering_default (s : shared') ev : SInv s -> event_ok ev -> fine (entering_default sops s ev).
+Proof.
+  intros Hs (Hsp & Hpr). pose proof Hs as [W _ _ _]. unfold entering_default.
+  assert (Hsyl : forall x, SInv (set_syl s x)) by (intros x; destruct Hs; constructor; assumption).
+  destruct (negb (o_english (opts s))).
+  - destruct (N.eqb (kcode ev) kc_Grave && mods_none ev); [exact I|].
+    destruct (N.eqb (kcode ev) kc_Space) eqn:Esp.
+    + apply N.eqb_eq in Esp. destruct (negb (o_fullwidth (opts s))); [now apply fine_commit_or_insert|].
+      destruct (full_width_symbol_input (kunicode ev)) eqn:Ef; [now apply fine_commit_or_insert | now apply Hsp in Esp].
+    + destruct (o_easy_symbol (opts s)).
+      * destruct (assoc (kunicode ev) (abbr s)).
+        { apply fine_bind; [now apply fine_insert_chars | intros; exact I]. }
+        destruct (special_symbol_input (kunicode ev)).
+        { apply fine_bind; [apply fine_with_com, fine_ce_insert, W | intros; exact I]. }
+        destruct (mods_none ev); [|exact I]. destruct (so_key_press sops (syl s) ev) as [sy kb]. destruct kb; exact I.
+      * set (pressed := if mods_none ev then Some (so_key_press sops (syl s) ev) else None).
+        assert (K : forall s0 : shared', SInv s0 ->
+                  fine (match special_symbol_input (kunicode ev) with
+                        | Some sy => do s' <- with_com s0 (ce_insert (com s0) (SymChar sy)); Ok (s', Spin BAbsorb)
+                        | None => if is_printable ev then
+                                    if negb (o_fullwidth (opts s)) then commit_or_insert s0 (kunicode ev)
+                                    else match full_width_symbol_input (kunicode ev) with
+                                         | None => Panic 602 | Some ch => commit_or_insert s0 ch end
+                                  else Ok (s0, Spin BBell)
+                        end)).
+        { intros s0 H0. destruct (special_symbol_input (kunicode ev)).
+          - apply fine_bind; [apply fine_with_com, fine_ce_insert; now destruct H0 | intros; exact I].
+          - destruct (is_printable ev) eqn:Ep; [|exact I]. destruct (negb (o_fullwidth (opts s))); [now apply fine_commit_or_insert|].
+            destruct (full_width_symbol_input (kunicode ev)) eqn:Ef; [now apply fine_commit_or_insert | exfalso; now apply Hpr]. }
+        destruct pressed as [[sy kb]|]; [destruct kb; first [exact I | apply K, Hsyl] | now apply K].
+  - destruct (negb (o_fullwidth (opts s))); [now apply fine_commit_or_insert|].
+    destruct (full_width_symbol_input (kunicode ev)); [now apply fine_commit_or_insert | exact I].
+Qed.
+
+Ltac split_ifs := repeat match goal with |- fine (if ?c then _ else _) => let E := fresh "E" in destruct c eqn:E end.
+
+Lemma fine_entering_next (s : shared') ev : SInv s -> event_ok ev -> fine (entering_next dops sops conv s ev).
+Proof.
+  intros Hs Hev. pose proof Hs as [W _ _ _]. unfold entering_next. cbv zeta. split_ifs; try exact I;
+  try (apply fine_bind; [|intros; exact I]);
+  first [ apply fine_with_com; first [ now apply fine_ce_remove_before | now apply fine_ce_insert_glue | now apply fine_ce_insert_break
+                                     | now apply fine_ce_remove_after ]
+        | apply fine_learn_in_range; match goal with H : Nat.leb _ _ = true |- _ => apply Nat.leb_le in H | _ => idtac end; lia
+        | apply fine_start_selecting_common
+        | now apply fine_commit
+        | now apply fine_commit_or_insert
+        | now apply fine_entering_default ].
+Qed.
+
+Lemma fine_entering_syllable_next (s : shared') ev : SInv s -> fine (entering_syllable_next dops sops s ev).
+Proof.
+  intros Hs. pose proof Hs as [W _ _ _]. unfold entering_syllable_next. cbv zeta. split_ifs; try exact I.
+  destruct (if o_fuzzy (opts s) then so_fuzzy_key_press sops (syl s) ev else so_key_press sops (syl s) ev) as [sy kb].
+  destruct kb; try exact I.
+  - (* Commit *)
+    destruct (has_phrase dops _ _ _); [|exact I]. cbn [com set_syl].
+    apply fine_bind; [apply fine_with_com, fine_ce_insert, W|]. intros s2 H2.
+    apply with_com_ok in H2 as (c2 & Hc2 & ->). cbn [com set_syl] in Hc2. destruct (ce_insert_spec _ _ _ W Hc2) as (W2 & _ & Hcur & _).
+    destruct (o_engine _); try exact I. apply fine_bind; [|intros; exact I].
+    apply fine_new_phrase_selecting_simple; cbn [com set_syl set_com]; [exact W2 | lia].
+  - (* Fuzzy *)
+    destruct (has_phrase dops _ _ _); [|exact I]. cbn [com set_syl].
+    apply fine_bind; [apply fine_with_com, fine_ce_insert, W | intros; exact I].
+Qed.
+
+(* ---- Selecting ---- *)
+Lemma fine_ss_select y n : ss_from ss0 y -> fine (ss_select y n).
+Proof.
+  intros (Hc & Ht & Hcur). destruct ss0_good as (G1 & G2). unfold ss_select. destruct (ss_cursor y) as [c|] eqn:Ec.
+  - specialize (Hcur c eq_refl). rewrite Ht. destruct (Nat.leb (length (ss_table ss0)) c) eqn:E; [apply Nat.leb_le in E; lia | exact I].
+  - destruct (nth_error (ss_category y) n) as [[name [idx|]]|] eqn:En; try exact I.
+    destruct name as [|ch name']; [|exact I]. apply nth_error_In in En. rewrite Hc in En. now apply G1 in En.
+Qed.
+
+Lemma candidates_nonempty (s : shared') p c t : SInv s -> candidates dops sops s (SelPhrase p) = Ok c -> In t c -> t <> [].
+Proof.
+  intros [_ Dk _ _] H Hin. cbn [candidates] in H.
+  assert (B : forall f k, In t (map fst (do_lookup dops (dict s) f k)) -> t <> []).
+  { intros f k Hm. apply in_map_iff in Hm as (q & <- & Hq). eapply ok_text; eassumption. }
+  destruct (Nat.ltb (ps_end p) (ps_begin p)); [discriminate|]. destruct (Nat.ltb (clen (ps_com p)) (ps_end p)); [discriminate|].
+  destruct (Nat.eqb (ps_end p - ps_begin p) 1).
+  - destruct (slice _ _ _) as [|[code|ch] [|y l]]; try discriminate. inv_ok H.
+    apply in_app_or in Hin as [Hin|Hin]; [now apply B in Hin|].
+    apply in_flat_map in Hin as (a & _ & Ha). now apply B in Ha.
+  - inv_ok H. now apply B in Hin.
+Qed.
+
+Lemma fine_insert_or_replace (s : shared') (act : bool) sym : wf_ce (com s) -> (act = false -> cursor (com s) < ce_len (com s)) ->
+  fine (if act then ce_insert (com s) sym else ce_replace (com s) sym).
+Proof. intros W Ha. destruct act; [now apply fine_ce_insert | apply fine_ce_replace; now apply Ha]. Qed.
+
+Lemma fine_selecting_select_offset (s : shared') pg act sel n : SInv s -> sel_inv s sel -> act_ok s act sel ->
+  fine (selecting_select_offset dops sops s pg act sel n).
+Proof.
+  intros Hs Hsel Hact. pose proof Hs as [W _ _ _]. destruct sel as [p|y|sym]; cbn [selecting_select_offset].
+  - destruct (candidates dops sops s (SelPhrase p)) as [c| | |] eqn:Ec;
+      try (pose proof (fine_candidates s (SelPhrase p) Hsel) as F; rewrite Ec in F; exact F); cbn [obind].
+    destruct (nth_error c n) as [text|] eqn:En; [|exact I]. apply fine_bind; [|intros; exact I].
+    destruct Hsel as ([_ Hle _] & Hcom). apply fine_ce_select; cbn [itext ie].
+    + eapply candidates_nonempty; [exact Hs | exact Ec | eapply nth_error_In; exact En].
+    + unfold ce_len. now rewrite <- Hcom.
+  - destruct (Nat.leb _ _); [exact I|]. apply fine_bind; [now apply fine_ss_select|]. intros [y' [sy|]] _; [|exact I].
+    apply fine_bind; [now apply fine_insert_or_replace | intros; exact I].
+  - cbn [sel_inv] in Hsel. destruct sym as [code|ch]; [discriminate|]. cbn [special_menu special_select obind].
+    destruct (Nat.leb _ _); [exact I|]. destruct (match special_find_category ch with Some _ => _ | None => _ end) as [sy|]; [|exact I].
+    apply fine_bind; [now apply fine_insert_or_replace | intros; exact I].
+Qed.
+
+Lemma fine_reselect_at_cursor (s : shared') : cursor (com s) < ce_len (com s) -> fine (reselect_at_cursor dops s).
+Proof.
+  intros Hc. unfold reselect_at_cursor, ce_symbol, comp_symbol.
+  destruct (nth_error (symbols (inner (com s))) (cursor (com s))) as [[code|ch]|] eqn:E; cbn [is_syllable].
+  - apply fine_bind; [|intros; exact I].
+    destruct (ps_init_total dops (dict s) (ps_new (negb (o_rearward (opts s))) (o_fuzzy (opts s)) (inner (com s))) (cursor (com s)))
+      as (p' & ->); [exact Hc | exists code; exact E | exact I].
+  - exact I.
+  - apply nth_error_None in E. unfold ce_len, clen in Hc. lia.
+Qed.
+
+Lemma fine_selecting_next (s : shared') ev pg act sel : SInv s -> sel_inv s sel -> act_ok s act sel ->
+  fine (selecting_next dops sops s ev pg act sel).
+Proof.
+  intros Hs Hsel Hact. pose proof Hs as [[_ Wc] Dk _ _]. unfold selecting_next, selecting_select. cbv zeta.
+  assert (NE : ce_is_empty (com s) = false -> 0 < ce_len (com s)).
+  { unfold ce_is_empty. intros E. apply Nat.eqb_neq in E. lia. }
+  assert (SB : sel_begin s sel <= ce_len (com s)).
+  { destruct sel as [p|y|sym]; cbn [sel_begin]; [|exact Wc | exact Wc]. destruct Hsel as ([Hlt Hle _] & Hcom). unfold ce_len. rewrite <- Hcom. lia. }
+  split_ifs; try exact I;
+  try (apply fine_bind; [now apply fine_total_page | intros; split_ifs; try exact I]);
+  try (now apply fine_selecting_select_offset).
+  - destruct sel as [p|y|sym]; try exact I. apply fine_bind; [|intros; exact I].
+    destruct Hsel as (Hok & _). destruct (ps_next_total dops (dict s) p Hok) as (p' & ->). exact I.
+  - apply fine_bind; [|intros; exact I]. apply fine_reselect_at_cursor. specialize (NE eq_refl).
+    unfold ce_move_cursor. cbn [com set_com cursor ce_len inner]. unfold ce_len in *. cbn [cursor inner]. lia.
+  - apply fine_bind; [|intros; exact I]. apply fine_reselect_at_cursor. specialize (NE eq_refl).
+    unfold ce_clamp_cursor, ce_move_cursor. cbn [com set_com cursor ce_len inner]. unfold ce_len in *. cbn [cursor inner].
+    destruct (Nat.eqb _ _) eqn:Eq; cbn [cursor inner]; [apply Nat.eqb_eq in Eq | apply Nat.eqb_neq in Eq]; lia.
+Qed.
+
+Lemma fine_highlighting_next (s : shared') ev mv : fine (highlighting_next dops conv s ev mv).
+Proof.
+  unfold highlighting_next. cbv zeta. split_ifs; try exact I. apply fine_bind; [|intros; exact I]. apply fine_learn_in_range. lia.
+Qed.
+
+(* ---- a key event, whatever the state ---- *)
+Notation Inv := (EditorInv.Inv dops sops dict_ok ss0).
+Notation state_inv := (EditorInv.state_inv dops sops ss0).
+
+Lemma fine_fst_ok {A B} (r : outcome (A * B)) : fine r -> fine (fst_ok r).
+Proof. destruct r as [[a b]| | |]; cbn; auto. Qed.
+
+Lemma fine_auto_commit_if (s : shared') (b : bool) : SInv s -> fine (if b then try_auto_commit conv s else Ok s).
+Proof. intros Hs. destruct b; [now apply fine_try_auto_commit | exact I]. Qed.
+
+Theorem fine_process_keyevent (e : editor') ev : Inv e -> event_ok ev -> fine (process_keyevent dops sops conv e ev).
+Proof.
+  intros [Ish Ist] Hev. unfold process_keyevent.
+  set (s0 := set_notice (set_lifetime (sh e) (lifetime (sh e) + 1)%N) []).
+  assert (I0 : SInv s0) by (subst s0; destruct Ish; constructor; assumption).
+  set (s1 := set_commit s0 []).
+  assert (I1 : SInv s1) by (subst s1; destruct I0; constructor; assumption).
+  assert (V1 : same_view (sh e) s1) by (subst s1 s0; repeat split).
+  pose proof (state_inv_view dops sops ss0 _ _ _ V1 Ist) as Ist1.
+  apply fine_bind.
+  - destruct (st e) as [| |pg act sel|mv]; (apply fine_bind; [|intros [[? ?] ?]; intros; try exact I; try (destruct p; exact I)]).
+    + now apply fine_entering_next.
+    + now apply fine_entering_syllable_next.
+    + destruct Ist1 as (Hs1 & _ & Ha1). now apply fine_selecting_next.
+    + apply fine_highlighting_next.
+  - intros [s2 st2] Hr. apply fine_bind; [|intros; exact I].
+    destruct (is_entering st2 && behavior_eqb (last s2) BAbsorb); [|exact I]. apply fine_try_auto_commit.
+    (* the shared state after the handler satisfies the invariant *)
+    destruct (st e) as [| |pg act sel|mv] eqn:Est.
+    + bind_ok Hr r Hr1. destruct r as [sa ta]. cbn [fst snd] in Hr.
+      eapply (entering_next_inv dops sops) in Hr1 as (Ia & Ta); try exact I1; try eassumption.
+      injection Hr as Hap. eapply apply_transition_inv; [exact Ia | | exact Ta | exact Hap]. now destruct ta.
+    + bind_ok Hr r Hr1. destruct r as [sa ta]. cbn [fst snd] in Hr.
+      eapply (entering_syllable_next_inv dops sops) in Hr1 as (Ia & Ta); try exact I1; try eassumption.
+      injection Hr as Hap. eapply apply_transition_inv; [exact Ia | | exact Ta | exact Hap]. now destruct ta.
+    + bind_ok Hr r Hr1. destruct r as [[[sa ta] pg'] sel']. destruct Ist1 as (Hs1 & Hp1).
+      eapply (selecting_next_inv dops sops) in Hr1 as (Ia & Ta & Sa); try exact I1; try eassumption.
+      injection Hr as Hap. eapply apply_transition_inv; [exact Ia | | exact Ta | exact Hap]. destruct ta; [exact I | exact Sa].
+    + bind_ok Hr r Hr1. destruct r as [[sa ta] mv'].
+      eapply (highlighting_next_inv dops sops) in Hr1 as (Ia & Ta); try exact I1; try eassumption.
+      injection Hr as Hap. eapply apply_transition_inv; [exact Ia | | exact Ta | exact Hap]. now destruct ta.
+Qed.
+
+(* ---- the other public operations ---- *)
+Lemma fine_ed_select (e : editor') n : Inv e -> fine (ed_select dops sops conv e n).
+Proof.
+  intros [Ish Ist]. unfold ed_select. destruct (st e) as [| |pg act sel|mv] eqn:Est; try exact I.
+  destruct Ist as (Hs & Hp & Ha). apply fine_bind; [now apply fine_selecting_select_offset|].
+  intros [[[s2 t] pg'] sel'] Hr. destruct (apply_transition s2 (Selecting pg' act sel') t) as [s3 st3] eqn:Ea.
+  apply fine_bind; [|intros; exact I]. apply fine_auto_commit_if.
+  eapply (selecting_select_offset_inv dops sops) in Hr as (I2 & T2 & S2); try exact Ish; try eassumption; [|split; assumption].
+  eapply apply_transition_inv; [exact I2 | | exact T2 | exact Ea]. destruct t; [exact I | exact S2].
+Qed.
+
+Lemma fine_ed_start_selecting (e : editor') : fine (ed_start_selecting dops sops e).
+Proof.
+  unfold ed_start_selecting. apply fine_bind.
+  - destruct (st e); try exact I; apply fine_start_selecting_common.
+  - intros [s1 t1] _. cbn [fst snd]. destruct (apply_transition s1 (st e) t1). exact I.
+Qed.
+
+Lemma fine_ed_commit (e : editor') : Inv e -> fine (ed_commit dops conv e).
+Proof.
+  intros [Ish _]. unfold ed_commit. destruct (negb _ || _); [exact I|]. apply fine_bind; [now apply fine_commit | intros; exact I].
+Qed.
+
+Lemma fine_clamp_page (e : editor') : 1 <= o_per_page (opts (sh e)) ->
+  (forall pg act sel, st e = Selecting pg act sel -> sel_inv (sh e) sel) -> fine (clamp_page dops sops e).
+Proof.
+  intros Hp Hsel. unfold clamp_page. destruct (st e) as [| |pg act sel|mv]; try exact I.
+  destruct (Nat.eqb _ 0); [exact I|]. apply fine_bind; [|intros; exact I].
+  specialize (Hsel _ _ _ eq_refl). unfold total_page. apply fine_bind; [now apply fine_candidates|]. intros c _. unfold div_ceil.
+  destruct (Nat.eqb (o_per_page (opts (sh e))) 0) eqn:E; [apply Nat.eqb_eq in E; lia | exact I].
+Qed.
+
+Lemma fine_ed_set_options_c (e : editor') o : 1 <= o_per_page o -> Inv e -> fine (ed_set_options_c dops sops e o).
+Proof.
+  intros Ho [Ish Ist]. unfold ed_set_options_c. apply fine_clamp_page.
+  - unfold ed_set_options. cbn [sh opts set_opts]. exact Ho.
+  - intros pg act sel Hst. unfold ed_set_options in *. cbn [sh st] in *. rewrite Hst in Ist. destruct Ist as (Hs & _).
+    eapply sel_inv_view; [|exact Hs]. destruct (negb _); reflexivity.
+Qed.
+
+Lemma fine_ed_learn_c (e : editor') k t : Inv e -> fine (ed_learn_c dops sops e k t).
+Proof.
+  intros [Ish Ist]. unfold ed_learn_c. apply fine_bind.
+  - unfold ed_learn. apply fine_bind; [now apply fine_learn_phrase | intros; exact I].
+  - intros [e0 b0] Hr. cbn [fst snd]. apply fine_bind; [|intros; exact I].
+    eapply (ed_learn_inv_s dops) in Hr as (I0 & Ec & Eo & Es); try exact Ish; try eassumption.
+    apply fine_clamp_page; [now destruct I0|].
+    intros pg act sel Hst. rewrite Es in Hst. rewrite Hst in Ist. destruct Ist as (Hs & _).
+    eapply sel_inv_view; [|exact Hs]. now rewrite Ec.
+Qed.
+
+Lemma fine_ed_unlearn_c (e : editor') k t : Inv e -> fine (ed_unlearn_c dops sops e k t).
+Proof.
+  intros [[W Dk Sy Pp] Ist]. unfold ed_unlearn_c. apply fine_clamp_page; unfold ed_unlearn; cbn [sh st opts set_dict]; [exact Pp|].
+  intros pg act sel Hst. rewrite Hst in Ist. now destruct Ist.
+Qed.
+
+Lemma fine_with_phrase_sel (e : editor') f : Inv e -> (forall pg act p, ps_ok p -> fine (f pg act p)) -> fine (with_phrase_sel e f).
+Proof.
+  intros [_ Ist] Hf. unfold with_phrase_sel. destruct (st e) as [| |pg act [p|y|sy]|mv]; try exact I.
+  destruct Ist as ((Hok & _) & _). apply fine_bind; [now apply Hf | intros [p'|] _; exact I].
+Qed.
+
+Lemma fine_of_ex {A} (r : outcome A) : (exists a, r = Ok a) -> fine r.
+Proof. intros (a & ->). exact I. Qed.
+
+Lemma fine_ed_jumps (e : editor') : Inv e ->
+  fine (ed_jump_next dops e) /\ fine (ed_jump_prev dops e) /\ fine (ed_jump_first dops e) /\ fine (ed_jump_last dops e).
+Proof.
+  intros Hi. pose proof Hi as [[_ Dk _ _] _].
+  repeat split; (apply fine_with_phrase_sel; [exact Hi|]); intros pg act p Hok; pose proof Hok as [Hlt Hle [Hsyl (O1 & O2) Hdir]];
+    (apply fine_bind; [apply fine_of_ex | intros; exact I]).
+  - apply ps_next_point_total; lia.
+  - apply ps_prev_point_total; [lia | lia | destruct (ps_fwd p); lia].
+  - now apply ps_init_total.
+  - apply (ps_jump_last_total dops dict_ok ok_lookup); [exact Hok | exact Dk | lia].
+Qed.
+
+(* ---- every operation, every history ---- *)
+Definition op_fine (o : op) : Prop :=
+  match o with OpKey ev => event_ok ev | OpSetOptions x => 1 <= o_per_page x | _ => True end.
+
+Lemma op_fine_ok o : op_fine o -> op_ok o.
+Proof. destruct o; cbn; auto. Qed.
+
+Theorem fine_step (e : editor') o : op_fine o -> Inv e -> fine (step dops sops conv e o).
+Proof.
+  intros Ho Hi. destruct o; cbn [step op_fine] in *; try exact I; try apply fine_fst_ok.
+  - now apply fine_process_keyevent.
+  - now apply fine_ed_select.
+  - apply fine_ed_start_selecting.
+  - now apply fine_ed_commit.
+  - now apply fine_ed_set_options_c.
+  - now destruct (fine_ed_jumps e Hi) as (A & B & C & E).
+  - now destruct (fine_ed_jumps e Hi) as (A & B & C & E).
+  - now destruct (fine_ed_jumps e Hi) as (A & B & C & E).
+  - now destruct (fine_ed_jumps e Hi) as (A & B & C & E).
+  - now apply fine_ed_learn_c.
+  - now apply fine_ed_unlearn_c.
+Qed.
+
+Theorem fine_run ops : forall (e : editor'), Forall op_fine ops -> Inv e -> fine (run dops sops conv e ops).
+Proof.
+  induction ops as [|o rest IH]; intros e Hops Hi; cbn [run]; [exact I|].
+  inversion Hops as [|x l Ho Hrest]; subst.
+  pose proof (fine_step e o Ho Hi) as F.
+  destruct (step dops sops conv e o) as [e1| | |] eqn:Es; try exact F.
+  apply IH; [exact Hrest|].
+  eapply (step_inv dops sops conv dict_ok); try eassumption. now apply op_fine_ok.
+Qed.
+
+End Total.
